@@ -1,5 +1,6 @@
 mod drive;
 mod exprcase;
+mod fmtcase;
 mod lexcase;
 mod render;
 mod session;
@@ -37,6 +38,25 @@ fn replay(args: &[String]) -> i32 {
         total += 1;
         let kind = case["R"].as_str().unwrap_or("?").to_string();
         *kinds.entry(kind.clone()).or_insert(0) += 1;
+        if kind == "fmt" {
+            match fmtcase::run(&case) {
+                (fmtcase::Outcome::Ok, detail) => {
+                    ok += 1;
+                    if !case["hasp"].as_bool().unwrap_or(false) {
+                        nontrivial += 1;
+                    }
+                    if samples.len() < 5 && total % 997 == 1 {
+                        samples.push(json!({"case": case, "observed": detail}));
+                    }
+                }
+                (fmtcase::Outcome::Fail(msg), detail) => {
+                    if fails.len() < 2000 {
+                        fails.push(json!({"case": case, "why": msg, "observed": detail}));
+                    }
+                }
+            }
+            continue;
+        }
         if kind == "lex" {
             match lexcase::run(&case) {
                 (lexcase::Outcome::Ok, detail) => {
